@@ -54,7 +54,7 @@ class Main:
 
     @staticmethod
     def gen_cases(rng, tier):
-        n = 520 if tier == 'quick' else 4000
+        n = 560 if tier == 'quick' else 4000
         out = []
         # systematic block: every orientation x both directions x a permuting and a flipping order
         for orient in sorted(cl.ALL_ORIENTS):
@@ -66,6 +66,10 @@ class Main:
             for vo in cl.CODES48:
                 for orient in ('sag', 'dd', 'cor'):
                     out.append(cl.gen_stack_case(rng, tier, orient=orient, vo=vo, S=3, T=2, V=2, gap=2.0, ps=[0.5, 0.75]))
+        # 5-D (and 4-D) grids with T != V, incl. (X, Y, Z, 1, V) and single-slice volumes: the strides of the file index
+        for (S, T, V) in cl.DIMS5:
+            for vo in (['LAS', ''] if tier == 'quick' else ['LAS', '', 'SPR', 'IRA']):
+                out.append(cl.gen_stack_case(rng, tier, S=S, T=T, V=V, vo=vo, rows=2, cols=2, kind='grid-%dx%dx%d' % (S, T, V)))
         # dtype block: uniform formats ...
         for bits in (8, 12, 15, 16):
             for pixrep in (0, 1):
